@@ -572,11 +572,12 @@ UriBool URI_FUNC(FixAmbiguity)(URI_TYPE(Uri) * uri,
 			&& (uri->pathHead->next != NULL)
 			&& (uri->pathHead->text.afterLast == uri->pathHead->text.first))
 
-			/* Case 2: relative path without authority, empty first and second segment */
+			/* Case 2: relative path without authority, empty first and second segment, more following */
 			|| (!uri->absolutePath
 			&& !URI_FUNC(IsHostSet)(uri)
 			&& (uri->pathHead != NULL)
 			&& (uri->pathHead->next != NULL)
+			&& (uri->pathHead->next->next != NULL)
 			&& (uri->pathHead->text.afterLast == uri->pathHead->text.first)
 			&& (uri->pathHead->next->text.afterLast == uri->pathHead->next->text.first))) {
 		/* NOOP */
